@@ -260,6 +260,10 @@ func c07UnsetAllowed(format string, s stamp, kind string) bool {
 		return kind == "zero"
 	case format == "apk" && s.Class == "tar-member" && strings.HasSuffix(s.Where, ":.PKGINFO"):
 		return kind == "zero"
+	case format == "rpm" && s.Class == "rpm-changelogtime":
+		// the date a changelog entry states is an input; an entry without a date states Go's zero time, which the
+		// 32-bit tag holds as 2288912640
+		return kind == "unset-gzip-constant"
 	}
 	return false
 }
@@ -372,6 +376,25 @@ func runC07(c *Ctx) error {
 		s.Describe["map_settings"] = "deb.fields / ipk.fields with names differing only in case, relations, alternatives, triggers"
 	}
 
+	// a changelog with a dated and an undated entry (rpm stores one CHANGELOGTIME per entry, deb renders the dates)
+	changelogPath := filepath.Join(scriptDir, "changelog.yaml")
+	const c07ChangelogDate = int64(1614834367) // 2021-03-04T05:06:07Z
+	if err := os.WriteFile(changelogPath, []byte("---\n- semver: 1.1.0\n  date: 2021-03-04T05:06:07Z\n  packager: Verif <verif@example.com>\n  changes:\n    - note: \"dated entry\"\n- semver: 1.0.0\n  packager: Verif <verif@example.com>\n  changes:\n    - note: \"an entry without a date\"\n"), 0o644); err != nil {
+		return err
+	}
+	_ = os.Chtimes(changelogPath, time.Unix(1650002000, 0), time.Unix(1650002000, 0))
+	_ = os.Chtimes(scriptDir, time.Unix(1650001000, 0), time.Unix(1650001000, 0))
+	withChangelog := func(s *PkgSpec) {
+		old := s.Mutate
+		s.Mutate = func(info *nfpm.Info) {
+			if old != nil {
+				old(info)
+			}
+			info.Changelog = changelogPath
+		}
+		s.Describe["changelog"] = "two entries: one dated 2021-03-04T05:06:07Z, one without a date"
+	}
+
 	// ---------------- family 1: rebuild in process ----------------
 	fam := c.Rep.Family("rebuild-in-process", "one in three specs carries custom control fields kept in maps, with names differing only in case; random content lists (genPkgSpec: files, configs, globs, dirs, symlinks, trees, ghosts, docs, per-entry file_info incl. explicit mtimes, deb/rpm compressors; the first spec carries one compressible file larger than every compressor block) with mtime forced to 1700000000, rpm build host fixed, optional scripts, x 5 formats; package A is rebuilt immediately, after the wall-clock second changed (one 1.2 s sleep), under GOMAXPROCS 1/2/4/16, and from the tree root with every source path rewritten to a relative one; every rebuild must be byte-identical to A; one evaluation per (spec, format, variant); non-trivial = A built and has more than one payload member")
 	n := c.N(25, 400)
@@ -392,7 +415,7 @@ func runC07(c *Ctx) error {
 		}
 	}
 	// timestamps family is fed from the same packages
-	famT := c.Rep.Family("timestamps", "every package A of rebuild-in-process plus specs in which every entry carries an explicit per-entry mtime (1500000000..1500100000), mtime 1700000000: the package is decoded by the independent readers and EVERY stored timestamp is collected (ar member headers; tar member headers and PAX time records of deb control+data, ipk outer+control+data, every apk segment, archlinux incl. .PKGINFO/.MTREE/.INSTALL; every gzip header MTIME incl. the rpm payload's; rpm BUILDTIME, FILEMTIMES, CHANGELOGTIME and cpio member times; archlinux builddate and every .MTREE time=) and must lie in {configured mtime} ∪ {explicit per-entry mtimes} ∪ {on-disk mtimes of the source tree and script files, all pinned years before the run} ∪ {0, 2288912640 (unset markers)}; one evaluation per package; non-trivial = more than one payload member; the distribution counts timestamps per format and location class")
+	famT := c.Rep.Family("timestamps", "every package A of rebuild-in-process plus specs in which every entry carries an explicit per-entry mtime (1500000000..1500100000), mtime 1700000000: the package is decoded by the independent readers and EVERY stored timestamp is collected (ar member headers; tar member headers and PAX time records of deb control+data, ipk outer+control+data, every apk segment, archlinux incl. .PKGINFO/.MTREE/.INSTALL; every gzip header MTIME incl. the rpm payload's; rpm BUILDTIME, FILEMTIMES, CHANGELOGTIME (one spec in three has a changelog with a dated and an undated entry) and cpio member times; archlinux builddate and every .MTREE time=) and must lie in {configured mtime} ∪ {explicit per-entry mtimes} ∪ {on-disk mtimes of the source tree and script files, all pinned years before the run} ∪ {the dates the changelog file states} ∪ {0, 2288912640 (unset markers)}; one evaluation per package; non-trivial = more than one payload member; the distribution counts timestamps per format and location class")
 	// a payload larger than any compressor block (pgzip 1 MiB, zstd 128 KiB): compressible text, so that block
 	// boundaries matter; it goes through every rebuild variant, GOMAXPROCS 1/2/4/16 included
 	bigPath := filepath.Join(c.Tmp, "c07-big.txt")
@@ -420,7 +443,11 @@ func runC07(c *Ctx) error {
 		if i%3 == 1 {
 			withMaps(s)
 		}
+		if i%3 == 2 {
+			withChangelog(s)
+		}
 		allowed := allowedFor(disk, s.MTime, s.Raw)
+		allowed[c07ChangelogDate] = "changelog-entry-date"
 		for _, f := range Formats {
 			b := &c07Built{spec: s, format: f}
 			b.key = fmt.Sprintf("%s|%v", f, s.Input())
